@@ -120,6 +120,7 @@ func runC10(c *an.Ctx) {
 		return
 	}
 	checkServerStartOrder(c, "C10.e")
+	checkDecoderSumsGuarded(c, "C10.j")
 	// the Store methods the server answers from are part of what "the server never panics" rests on
 	// when the server is given the module's own Store: they are put under the sweeps that follow every
 	// rule (pointer loads dereferenced under a nil test, conversions, derived contexts)
